@@ -48,6 +48,9 @@ type Control struct {
 	OnCommit func(wrote bool)
 	// OnRollback is called after a rollback (explicit or forced).
 	OnRollback func()
+	// FailWrites > 0: the disk is full: every writing statement of the next FailWrites
+	// transactions fails, reads succeed
+	FailWrites int
 	// OnFire is called when an injected fault fires, before the error is returned (the
 	// open transaction, if any, is still open: a crash image taken here is what a killed
 	// process leaves behind at that statement)
@@ -62,6 +65,7 @@ type Control struct {
 	Fired                             map[string]int
 
 	// state of the open transaction
+	failTx  bool
 	cur     *Fault
 	inTx    bool
 	stmtIdx int
@@ -91,6 +95,10 @@ func mkErr(kind string) error {
 		return sqlite3.Error{Code: sqlite3.ErrBusy}
 	case "ioerr", "":
 		return sqlite3.Error{Code: sqlite3.ErrIoErr}
+	case "txdone":
+		// what database/sql reports from Commit when the transaction's context expired and the
+		// transaction has been rolled back behind the caller's back
+		return sql.ErrTxDone
 	default:
 		return fmt.Errorf("injected: %s", kind)
 	}
@@ -99,7 +107,7 @@ func mkErr(kind string) error {
 // ErrInjected reports whether err was produced by this package.
 func ErrInjected(err error) bool {
 	var e sqlite3.Error
-	return errors.As(err, &e)
+	return errors.As(err, &e) || errors.Is(err, sql.ErrTxDone)
 }
 
 // Open returns a *sql.DB over the sqlite file at dsn, controlled by ctl.
@@ -161,6 +169,10 @@ func (c *conn) before(query string, exec bool) error {
 		ctl.fire("sql.stmt_error")
 		return mkErr(f.Err)
 	}
+	if exec && ctl.failTx {
+		ctl.Fired["sql.disk_full"]++
+		return mkErr("full")
+	}
 	if exec {
 		ctl.wrote = true
 	}
@@ -198,6 +210,11 @@ func (c *conn) BeginTx(ctx context.Context, opts driver.TxOptions) (driver.Tx, e
 		return nil, err
 	}
 	ctl.Begins++
+	ctl.failTx = false
+	if ctl.FailWrites > 0 {
+		ctl.FailWrites--
+		ctl.failTx = true
+	}
 	ctl.Changes = ctl.Changes[:0]
 	ctl.cur = f
 	ctl.inTx = true
